@@ -81,6 +81,71 @@ func run(cfg lib.Cfg) error {
 		judge(sc, "corpus-cross-partition-switch")
 	}
 
+	// single faults inside the unwinding step: at every statement from the first DelCursors to
+	// the statement after the last DelRows (error reply / connection drop / process death) and
+	// at the load that follows the unwind; then fault-free to quiescence.  A failed unwinding
+	// step must leave nothing behind: the table must still converge to the final chain.
+	for bi, ub := range []struct {
+		shape            string
+		batch, head, pre int
+		fork             uint64
+		newLen           int
+	}{
+		{"log", 2, 6, 3, 3, 6}, // positions 2, 4, 6; fork 3: two unwinding iterations (6, 4), then re-index from 3
+		{"tx", 3, 6, 2, 5, 4},  // positions 3, 6; fork 5: one iteration
+	} {
+		if bi > 0 && !cfg.Thorough() {
+			break
+		}
+		build := func(inject []ts.Act, name string) *ts.Scenario {
+			sc := world(fmt.Sprintf("unwind-fault-%d/%s", bi, name), []string{ub.shape}, ub.batch, 1, ub.head, uint64(91+bi))
+			sc.Acts = append(rounds(1, ub.pre), ts.Act{Do: "reorg", Fork: ub.fork, Len: ub.newLen})
+			sc.Acts = append(sc.Acts, inject...)
+			sc.Acts = append(sc.Acts, ts.Act{Do: "step", Tid: 1}, ts.Act{Do: "clear"}, ts.Act{Do: "grow", K: 2})
+			sc.Acts = append(sc.Acts, rounds(1, (ub.head+ub.newLen)/ub.batch+5)...)
+			return sc
+		}
+		// probe the fault-free unwinding step: positions of its statements and node calls
+		pr, err := build(nil, "probe").Exec()
+		if err != nil {
+			pr.Close()
+			return fmt.Errorf("unwind-fault probe: %w", err)
+		}
+		st := pr.Steps[ub.pre]
+		var names []string
+		for _, e := range pr.W.Rec.Events[st.First:st.Last] {
+			if e.Kind == "op" && e.Op.Name != "RLatest" && e.Op.Name != "RHash" && e.Op.Name != "RGet" {
+				names = append(names, e.Op.Name)
+			}
+		}
+		calls := st.Calls
+		pr.Close()
+		first, last := -1, -1
+		for i, n := range names {
+			if n == "DelCursors" && first < 0 {
+				first = i
+			}
+			if n == "DelRows" {
+				last = i
+			}
+		}
+		if first < 0 {
+			return fmt.Errorf("unwind-fault base %d: the probe step did not unwind", bi)
+		}
+		judge(build(nil, "fault-free"), "unwind-single-fault")
+		for i := first; i <= last+1 && i < len(names); i++ {
+			for _, k := range []string{"error", "drop", "crash"} {
+				judge(build([]ts.Act{{Do: "fault", Tid: 1, At: i, Kind: k}}, fmt.Sprintf("db%d-%s-%s", i, names[i], k)), "unwind-single-fault")
+			}
+		}
+		// the loads of the step (the one that detects the reorg, the ones between and after the unwinds)
+		for _, c := range calls {
+			if c.Kind == "get" {
+				judge(build([]ts.Act{{Do: "rpcfail", Tid: 1, Call: c.Key()}}, "load-fails-"+c.Key()), "unwind-single-fault")
+			}
+		}
+	}
+
 	// SHORT batches (delta < batch size, the normal case near the head) over several
 	// partitions: partitions are sized by ceil(batch/conc), not by ceil(delta/conc), so the
 	// partition boundaries do not sit where an even split of the loaded blocks would put
